@@ -187,6 +187,10 @@ def e2e_part(name, profiles, pairs, tags, nontrivial, n_quick=120, n_thorough=12
                             bad.append(("C01", "no generated implementation for injector %s (%s)" % (ur.u.inj["name"], imp)))
                     if "C12" in tags and "C02" not in tags:
                         bad += [("C12", m) for m in ur.ir_problems if "struct" in m or "field" in m or "selection" in m]
+                        if any(it["kind"] in ("struct", "field") for it in ur.u.items):
+                            # S for *S, F for *F: the wrong form of a struct / field provider's output does not type-check
+                            bad += [("C12", "the generated injector over struct / field providers does not compile: " + m)
+                                    for m in ur.build_errors[:3] if "cannot use" in m]
                     if "C02" in tags:
                         bad += [("C02", m) for m in ur.ir_problems]
                         bad += [("C02", m) for m in planner.oracle_c02(ur.case, imp)]
@@ -529,7 +533,9 @@ register("C12",
                       nontrivial=lambda case, im: len(case.get("raw", [])) >= 9),
           e2e_part("C12", [("s", {"p_func": 0.25, "units": [1, 2]}),
                            # many fields selected through pointers, value and pointer form of one field wanted by one consumer
-                           ("f", {"p_func": 0.45, "p_field": 0.5, "p_both_forms": 1.0, "units": [1, 2], "min_structs": 5, "max_structs": 9})],
+                           ("f", {"p_func": 0.45, "p_field": 0.5, "p_both_forms": 1.0, "units": [1, 2], "min_structs": 5, "max_structs": 9}),
+                           # S and *S of one struct provider wanted by one provider function
+                           ("b", {"p_func": 0.3, "p_both_struct_forms": 1.0, "units": [1, 2]})],
                    _pairs_c02, {"C12"}, _has(("struct", "field")),
                    n_quick=90, n_thorough=900)])
 
